@@ -434,8 +434,8 @@ func (p *Parser) parseAdditiveExpression() (ast.Expression, error) {
 
 // parseMultiplicativeExpression parses expressions with *, /, and % operators
 func (p *Parser) parseMultiplicativeExpression() (ast.Expression, error) {
-	// Parse the left side using JSON operator expression (higher precedence)
-	left, err := p.parseJSONExpression()
+	// Parse the left side using a (possibly signed) JSON operator expression (higher precedence)
+	left, err := p.parseUnaryExpression()
 	if err != nil {
 		return nil, err
 	}
@@ -448,7 +448,7 @@ func (p *Parser) parseMultiplicativeExpression() (ast.Expression, error) {
 		operator := p.currentToken.Literal
 		p.advance() // Consume operator
 
-		right, err := p.parseJSONExpression()
+		right, err := p.parseUnaryExpression()
 		if err != nil {
 			return nil, err
 		}
@@ -461,6 +461,47 @@ func (p *Parser) parseMultiplicativeExpression() (ast.Expression, error) {
 	}
 
 	return left, nil
+}
+
+// parseUnaryExpression parses an operand with an optional sign: -expr, +expr. The sign binds
+// tighter than * / % and looser than ::, the JSON operators and subscripts:
+// -a * b is (-a) * b, -a::int is -(a::int), a - -b is a - (-b).
+func (p *Parser) parseUnaryExpression() (ast.Expression, error) {
+	if p.isType(models.TokenTypeMinus) || p.isType(models.TokenTypePlus) {
+		return p.parseSignedExpression()
+	}
+	return p.parseJSONExpression()
+}
+
+// parseSignedExpression parses a sign and its operand. Sign chains (- - - x) recurse through
+// parseUnaryExpression without passing parseExpression, so the recursion depth is checked here.
+func (p *Parser) parseSignedExpression() (ast.Expression, error) {
+	p.depth++
+	defer func() { p.depth-- }()
+
+	if p.depth > MaxRecursionDepth {
+		return nil, goerrors.RecursionDepthLimitError(
+			p.depth,
+			MaxRecursionDepth,
+			p.currentLocation(),
+			"",
+		)
+	}
+
+	operator := ast.Minus
+	if p.isType(models.TokenTypePlus) {
+		operator = ast.Plus
+	}
+	p.advance() // Consume the sign
+
+	operand, err := p.parseUnaryExpression()
+	if err != nil {
+		return nil, err
+	}
+	return &ast.UnaryExpression{
+		Operator: operator,
+		Expr:     operand,
+	}, nil
 }
 
 // parseJSONExpression parses JSON/JSONB operators (PostgreSQL) and type casting
